@@ -27,7 +27,12 @@ fn show_hits(h: &[mu::Hit]) -> String {
 fn gen_case(rng: &mut Rng, out: &mut Vec<String>, i: usize) {
     let w = mu::word_sizes()[i % 4];
     // 0: single only, 1: block only, 2: both (same word), 3: both (single u64 when it fits)
-    let kind = (i / 4) % 4;
+    let kind = match (i / 4) % 8 {
+        0 => 0,
+        1..=4 => 1,
+        5 | 6 => 2,
+        _ => 3,
+    };
     let alpha = mu::alphabet(rng);
     let simple_involved = kind != 1;
     let mut m = mu::pat_len(rng, w, simple_involved);
@@ -60,6 +65,11 @@ fn gen_case(rng: &mut Rng, out: &mut Vec<String>, i: usize) {
         let mut k = mu::threshold(rng, m, true).min(m + 5);
         if rng.chance(1, 10) {
             k = 255;
+        }
+        // several blocks and a small k: only part of the blocks of a column is computed (band), the traceback
+        // runs along the edge of the computed region
+        if !simple_involved && m > w && rng.chance(2, 3) {
+            k = rng.below((m - w).clamp(1, 12) + 1);
         }
         let mut t = mu::text(rng, &alpha, &p, k);
         if !extra.is_empty() {
@@ -108,7 +118,7 @@ fn enum_seqs(alpha: &[u8], maxlen: usize, minlen: usize) -> Vec<Vec<u8>> {
 }
 
 pub fn gen(tier: &str, rng: &mut Rng, out: &mut Vec<String>) {
-    let n = if tier == "thorough" { 40_000 } else { 2_400 };
+    let n = if tier == "thorough" { 150_000 } else { 5_000 };
     for i in 0..n {
         gen_case(rng, out, i);
     }
